@@ -67,7 +67,7 @@ pub fn h_ident_classes() {
 /// newline(): exactly the documented terminators, CRLF as one; loop-free, unbounded input.
 pub fn h_newline<M: VMode>() {
     run::<char, VS, (), _>(|inp, s0| {
-        let r = text::newline::<SymIn<char>, X<VS>>().go::<M>(inp);
+        let r = text::newline::<SymIn<char>, X<VS>>().gov::<M>(inp);
         let s = snap(inp);
         let t0 = if s0.pos < s0.len { Some(inp.cache.tok_at(s0.pos)) } else { None };
         let t1 = if s0.pos < s0.len && 1 < s0.len - s0.pos { Some(inp.cache.tok_at(s0.pos + 1)) } else { None };
@@ -133,7 +133,7 @@ pub fn h_int<M: VMode, T: SymTok + Char>() {
         ch::assume(s0.len - s0.pos <= 3);
         let radix = ch::any_u32();
         ch::assume(radix >= 2 && radix <= 36);
-        let r = text::int::<SymIn<T>, X<VS>>(radix).go::<M>(inp);
+        let r = text::int::<SymIn<T>, X<VS>>(radix).gov::<M>(inp);
         let s = snap(inp);
         let t = toks3(inp, &s0);
         let dig = |c: T| digit_spec(c.code(), radix);
@@ -152,7 +152,7 @@ pub fn h_digits<M: VMode, T: SymTok + Char>() {
         ch::assume(s0.len - s0.pos <= 3);
         let radix = ch::any_u32();
         ch::assume(radix >= 2 && radix <= 36);
-        let r = text::digits::<SymIn<T>, X<VS>>(radix).to_slice().go::<M>(inp);
+        let r = text::digits::<SymIn<T>, X<VS>>(radix).to_slice().gov::<M>(inp);
         let s = snap(inp);
         let t = toks3(inp, &s0);
         let n = run_len(&t, 0, |c: T| digit_spec(c.code(), radix));
@@ -163,7 +163,7 @@ pub fn h_digits<M: VMode, T: SymTok + Char>() {
 pub fn h_whitespace<M: VMode, T: SymTok + Char, const INLINE: bool>() {
     run::<T, VS, (), _>(|inp, s0| {
         ch::assume(s0.len - s0.pos <= 3);
-        let r = if INLINE { text::inline_whitespace::<SymIn<T>, X<VS>>().to_slice().go::<M>(inp) } else { text::whitespace::<SymIn<T>, X<VS>>().to_slice().go::<M>(inp) };
+        let r = if INLINE { text::inline_whitespace::<SymIn<T>, X<VS>>().to_slice().gov::<M>(inp) } else { text::whitespace::<SymIn<T>, X<VS>>().to_slice().gov::<M>(inp) };
         let s = snap(inp);
         let t = toks3(inp, &s0);
         // the documented class, written over code points so that u8 and char inputs share it
@@ -187,7 +187,7 @@ pub fn h_whitespace<M: VMode, T: SymTok + Char, const INLINE: bool>() {
 pub fn h_ascii_ident<M: VMode, T: SymTok + Char>() {
     run::<T, VS, (), _>(|inp, s0| {
         ch::assume(s0.len - s0.pos <= 3);
-        let r = text::ascii::ident::<SymIn<T>, X<VS>>().go::<M>(inp);
+        let r = text::ascii::ident::<SymIn<T>, X<VS>>().gov::<M>(inp);
         let s = snap(inp);
         let t = toks3(inp, &s0);
         let alpha = |x: u32| (x >= 'a' as u32 && x <= 'z' as u32) || (x >= 'A' as u32 && x <= 'Z' as u32) || x == '_' as u32;
@@ -223,7 +223,7 @@ pub fn h_ascii_keyword<M: VMode>() {
         let mut seen = SymSlice { start: usize::MAX, end: usize::MAX };
         let verdict = ch::any_bool();
         let kw = Kw { seen: &mut seen, verdict };
-        let r = text::ascii::keyword::<SymIn<char>, Kw, X<VS>>(kw).go::<M>(inp);
+        let r = text::ascii::keyword::<SymIn<char>, Kw, X<VS>>(kw).gov::<M>(inp);
         let s = snap(inp);
         let t = toks3(inp, &s0);
         let alpha = |x: u32| (x >= 'a' as u32 && x <= 'z' as u32) || (x >= 'A' as u32 && x <= 'Z' as u32) || x == '_' as u32;
@@ -250,7 +250,7 @@ pub fn h_ascii_keyword<M: VMode>() {
 pub fn h_padded<M: VMode>() {
     run::<u8, VS, (), _>(|inp, s0| {
         ch::assume(s0.len - s0.pos <= 2);
-        let r = anyp::<SymIn<u8>, X<VS>>(0).padded().go::<M>(inp);
+        let r = anyp::<SymIn<u8>, X<VS>>(0).padded().gov::<M>(inp);
         let s = snap(inp);
         let a = lg(inp, 0);
         let t0 = if s0.pos < s0.len { Some(inp.cache.tok_at(s0.pos)) } else { None };
